@@ -166,7 +166,7 @@ class MustFact:
         return self._through(bid, v, upto=idx)
 
 
-def fact_reach(fn, starts, barriers=(), init_facts=(), within=None, budget=200000):
+def fact_reach(fn, starts, barriers=(), init_facts=(), within=None, budget=200000, removed_edges=()):
     """Blocks reachable from `starts` without entering `barriers`, following only branch outcomes consistent with the zero /
     non-zero facts established by the branches already taken on the path (a fact is about the C-like text of the tested
     expression; it is dropped when a variable it mentions is written, and facts about memory reached through pointers are
@@ -184,6 +184,13 @@ def fact_reach(fn, starts, barriers=(), init_facts=(), within=None, budget=20000
         holder = {}
 
         def pred(e):
+            if e.get("k") == "asg" and e.get("op") == "=":
+                # `(x = y) != 0` tests x after the assignment
+                l = strip(e.get("lhs"))
+                if isinstance(l, dict) and l.get("k") == "ref":
+                    holder["k"] = l["name"]
+                    return True
+                return False
             k = key_of(e)
             if k is not None and e.get("k") in ("ref", "un", "index", "member"):
                 holder["k"] = k
@@ -212,6 +219,8 @@ def fact_reach(fn, starts, barriers=(), init_facts=(), within=None, budget=20000
         return _re.search(r"\b%s\b" % _re.escape(var), key) is not None
 
     barriers = set(barriers)
+    removed = set(removed_edges)
+    gcache = {}
     found = {}
     seen = set()
     stack = [(s, frozenset(init_facts), (s,)) for s in starts if s is not None]
@@ -237,10 +246,41 @@ def fact_reach(fn, starts, barriers=(), init_facts=(), within=None, budget=20000
             facts = frozenset((k, v) for (k, v) in facts
                               if not any(mentions(k, w) for w in roots_w)
                               and not ((through or called) and ("*" in k or "[" in k or "->" in k)))
+        # assignments of constants and copies between plain locals establish facts of their own
+        gens = gcache.get(bid)
+        if gens is None:
+            gens = []
+            from .facts import walk_eval as _we
+            for r in b.roots:
+                for x in _we(r):
+                    if x.get("k") == "asg" and x.get("op") == "=":
+                        l = strip(x.get("lhs"))
+                        if isinstance(l, dict) and l.get("k") == "ref":
+                            rr = strip(x.get("rhs"))
+                            c = const(rr)
+                            if c is not None:
+                                gens.append((l["name"], "const", c == 0))
+                            elif isinstance(rr, dict) and rr.get("k") == "ref":
+                                gens.append((l["name"], "copy", rr["name"]))
+                    elif x.get("k") == "decl":
+                        for v in x.get("vars", []):
+                            if v.get("init") is not None and const(v["init"]) is not None:
+                                gens.append((v["name"], "const", const(v["init"]) == 0))
+            gcache[bid] = gens
+        if gens:
+            fd = dict(facts)
+            for (name, kind, val) in gens:
+                if kind == "const":
+                    fd[name] = val
+                elif val in fd:
+                    fd[name] = fd[val]
+                else:
+                    fd.pop(name, None)
+            facts = frozenset(fd.items())
         cnd = cond_of(fn, b) if len(b.succs) == 2 else None
         bf = branch_fact(cnd) if cnd is not None else None
         for idx, s in enumerate(b.succs):
-            if s is None:
+            if s is None or (bid, idx) in removed:
                 continue
             f2 = facts
             if bf is not None:
